@@ -45,6 +45,8 @@ BIN = [
  ("d3ff2101", "field id beyond max_id"), ("82c328", "string with invalid UTF-8"), ("81ff", "string with invalid UTF-8 byte"),
  ("6380e40d", "timestamp month 13"), ("6380e400", "timestamp month 0"), ("6480e4829e", "timestamp February 30"), ("6580e4818198", "timestamp hour without minute"),
  ("6680e481819880", "timestamp hour 24"), ("6680e4818180bc", "timestamp minute 60"), ("6780e481818080bc", "timestamp second 60"),
+ ("39000000000000000000", "negative zero integer padded to 9 bytes"), ("3e90" + "00" * 16, "negative zero integer padded to 16 bytes"),
+ ("b239" + "00" * 9, "negative zero integer of 9 bytes overrunning a list"), ("ba39000000000000000000", "negative zero integer of 9 bytes in a list"),
  ("6180", "timestamp with an offset and no year"), ("6e820181", "timestamp with an offset and no year (long form)"),
  ("6a800fd08181808080ca81", "timestamp fraction -1d-10 (negative, rounds to zero nanoseconds)"), ("6a800fd08181808080c181", "timestamp fraction -1d-1"),
  ("62800f", "timestamp year unterminated varuint"), ("60", "empty timestamp"), ("6280a0", "timestamp year 0 ... (VarUInt 32? no: year 32)"),
